@@ -32,6 +32,8 @@ type Obligation struct {
 }
 
 type VC struct {
+	modElem map[string]bool
+	useSeq bool // byte-sequence facts are instantiated at slicing/append (contract flag "seq")
 	P        *Program
 	DB       *ContractDB
 	fn       *ssa.Function
@@ -117,9 +119,22 @@ const preludeDecls = `(declare-datatypes ((Slice 0)) (((mk_slice (s_base Int) (s
 (declare-fun bitshr (Int Int) Int)
 (declare-fun bitandnot (Int Int) Int)
 (declare-fun bitnot (Int) Int)
+(declare-fun seqof ((Array Int Int) Int Int) Int)
+(declare-fun seq_len (Int) Int)
+(declare-fun seq_cat (Int Int) Int)
+(declare-fun seq_sub (Int Int Int) Int)
+(declare-fun seq_at (Int Int) Int)
+(declare-const seq_empty Int)
 `
 
 var preludeAxioms = []struct{ sym, text string }{
+	// byte sequences (abstract content of []byte values): uninterpreted ids with
+	// length/concatenation/sub-sequence axioms; no associativity (layouts are
+	// proved through the sub projections)
+	{"seq_len", "(assert (forall ((s Int)) (! (>= (seq_len s) 0) :pattern ((seq_len s)))))\n(assert (= (seq_len seq_empty) 0))\n(assert (forall ((s Int)) (! (=> (= (seq_len s) 0) (= s seq_empty)) :pattern ((seq_len s)))))"},
+	{"seqof", "(assert (forall ((r (Array Int Int)) (o Int) (l Int)) (! (=> (>= l 0) (= (seq_len (seqof r o l)) l)) :pattern ((seqof r o l)))))\n(assert (forall ((r (Array Int Int)) (o Int) (l Int) (i Int)) (! (=> (and (<= 0 i) (< i l)) (= (seq_at (seqof r o l) i) (select r (+ o i)))) :pattern ((seq_at (seqof r o l) i)))))"},
+	{"seq_cat", "(assert (forall ((a Int) (b Int)) (! (and (= (seq_len (seq_cat a b)) (+ (seq_len a) (seq_len b))) (= (seq_sub (seq_cat a b) 0 (seq_len a)) a) (= (seq_sub (seq_cat a b) (seq_len a) (+ (seq_len a) (seq_len b))) b)) :pattern ((seq_cat a b)))))\n(assert (forall ((a Int)) (! (and (= (seq_cat a seq_empty) a) (= (seq_cat seq_empty a) a)) :pattern ((seq_cat a seq_empty)) :pattern ((seq_cat seq_empty a)))))"},
+	{"seq_sub", "(assert (forall ((a Int) (l Int) (h Int)) (! (=> (and (<= 0 l) (<= l h) (<= h (seq_len a))) (= (seq_len (seq_sub a l h)) (- h l))) :pattern ((seq_sub a l h)))))\n(assert (forall ((a Int)) (! (= (seq_sub a 0 (seq_len a)) a) :pattern ((seq_sub a 0 (seq_len a))))))\n(assert (forall ((a Int) (l Int) (h Int) (l2 Int) (h2 Int)) (! (=> (and (<= 0 l) (<= l h) (<= h (seq_len a)) (<= 0 l2) (<= l2 h2) (<= h2 (- h l))) (= (seq_sub (seq_sub a l h) l2 h2) (seq_sub a (+ l l2) (+ l h2)))) :pattern ((seq_sub (seq_sub a l h) l2 h2)))))"},
 	{"strlen", "(assert (forall ((s Int)) (! (>= (strlen s) 0) :pattern ((strlen s)))))\n(assert (= (strlen 0) 0))"},
 	{"str_cat", "(assert (forall ((a Int) (b Int)) (! (= (strlen (str_cat a b)) (+ (strlen a) (strlen b))) :pattern ((str_cat a b)))))"},
 	{"str_sub", "(assert (forall ((a Int) (l Int) (h Int)) (! (=> (and (<= 0 l) (<= l h)) (= (strlen (str_sub a l h)) (- h l))) :pattern ((str_sub a l h)))))"},
@@ -667,12 +682,35 @@ func (vc *VC) addrFun(name string) string {
 func (vc *VC) cellAddr(elem types.Type, ref string) *Addr {
 	sort := vc.sortOf(elem)
 	hv := vc.heapVar("C!"+typeKey(elem), "(Array Int "+sort+")")
+	base := elem
+	for {
+		if p, ok := base.(*types.Pointer); ok {
+			base = p.Elem()
+			continue
+		}
+		break
+	}
+	if n, ok := base.(*types.Named); ok && inModule(n.Obj().Pkg()) {
+		// variables of module-declared (pointer) types are module-private state
+		if vc.modElem == nil {
+			vc.modElem = map[string]bool{}
+		}
+		vc.modElem[hv] = true
+	}
 	return &Addr{Kind: "cell", Var: hv, Ref: ref, Sort: sort, Typ: elem}
 }
 
 func (vc *VC) elemVar(elem types.Type) string {
 	sort := vc.sortOf(elem)
-	return vc.heapVar("E!"+typeKey(elem), "(Array Int (Array Int "+sort+"))")
+	hv := vc.heapVar("E!"+typeKey(elem), "(Array Int (Array Int "+sort+"))")
+	if n, ok := elem.(*types.Named); ok && inModule(n.Obj().Pkg()) {
+		// slices of module-declared element types are module-private state
+		if vc.modElem == nil {
+			vc.modElem = map[string]bool{}
+		}
+		vc.modElem[hv] = true
+	}
+	return hv
 }
 
 func (vc *VC) freshRef(st *State, reach, hint string) string {
@@ -766,7 +804,7 @@ func (vc *VC) globalRef(pkgPath, name string) string {
 // state are kept (assumption lib-frame, listed in the evidence).
 func (vc *VC) havocLib(st *State) {
 	for _, v := range sortedKeys(vc.hsort) {
-		if strings.HasPrefix(v, "E!") || strings.HasPrefix(v, "C!") || vc.libVars[v] {
+		if ((strings.HasPrefix(v, "E!") || strings.HasPrefix(v, "C!")) && !vc.modElem[v]) || vc.libVars[v] {
 			vc.havocVar(st, v)
 		}
 	}
@@ -782,4 +820,30 @@ func (vc *VC) typingFact(f string) {
 	}
 	vc.typing[f] = true
 	vc.emit("(assert " + f + ")")
+}
+
+// viewOf: the abstract byte sequence held by slice term s in state st.
+func (vc *VC) viewOf(st *State, s string) string {
+	ev := vc.elemVar(types.Typ[types.Uint8])
+	return fmt.Sprintf("(seqof (select %s (s_base %s)) (s_off %s) (s_len %s))", vc.look(st, ev), s, s, s)
+}
+
+func isByteSlice(t types.Type) bool {
+	sl, ok := t.Underlying().(*types.Slice)
+	if !ok {
+		return false
+	}
+	b, ok := sl.Elem().Underlying().(*types.Basic)
+	return ok && b.Kind() == types.Uint8
+}
+
+// constGlobalTerm: value of a package-level variable that is assigned once, in
+// init, with a fresh object (pointer: a distinct negative address; interface: a
+// non-nil interface value boxing such an address under a distinct dynamic type id).
+func (vc *VC) constGlobalTerm(pkgPath, name, sort string) string {
+	ref := vc.globalRef(pkgPath, "@"+name)
+	if sort == "Iface" {
+		return fmt.Sprintf("(mk_iface (+ 900000 (- %s)) %s)", ref, ref)
+	}
+	return ref
 }
